@@ -101,6 +101,56 @@ def run(tier, seed):
         ev = read_event(exp_vals, o["results"])
         events.append(ev)
         owners.append((wc, rc["reader"], o))
+    # ---- the same reads, state by state, against the reader machine (ContainerReader.tla / Trace_ReaderImpl): the block structure
+    #      comes from walking each written file
+    walks = common.run_harness([{"op": "walk", "id": c["id"], "bytes": o.get("sink", []), "start": o.get("build", {}).get("sink_len", 0), "codec": c["codec"]}
+                                if o.get("res") == "ok" and "sink" in o else {"op": "walk", "id": c["id"], "bytes": [], "start": 0, "codec": "null"}
+                                for c, o in zip(wcmds, wobs)], per_cmd_timeout=60)
+    walk_of = {c["id"]: w for c, w in zip(wcmds, walks)}
+    ievents, iown = [], []
+    for (wc, rd, o), ev in zip(owners, events):
+        w = walk_of.get(wc["id"])
+        if not w or "blocks" not in w or w.get("stop") != len(wobs[wc["id"]].get("sink", [])):
+            continue            # (a file that does not walk to its end is reported by the round trip itself)
+        is_slice = rd.get("kind") == "slice"
+        kind = "slice" if (is_slice and wc["codec"] == "null") else "whole_io" if (is_slice or wc["codec"] == "snappy") else "stream"
+        ievents.append({"ev": "file", "kind": kind, "cutb": 0, "cutat": -2,
+                        "blocks": [{"n": b["count"], "items": ["good"] * b["count"], "sync": "ok"} for b in w["blocks"]]})
+        iown.append((wc, rd, o))
+        for r_, src in zip(ev["results"], o["results"]):
+            ievents.append({"ev": "call", "r": r_["r"], "item": r_["item"], "st": src.get("st", "unknown"), "left": src.get("left", -1), "latch": src.get("latch", -1)})
+            iown.append((wc, rd, o))
+    if ievents:
+        per = max(400, (len(ievents) + common.NCPU - 1) // common.NCPU)
+        ichunks, iowners, cur, cur_o = [], [], [], []
+        for ev, ow in zip(ievents, iown):
+            if ev["ev"] == "file" and len(cur) >= per:
+                ichunks.append(cur)
+                iowners.append(cur_o)
+                cur, cur_o = [], []
+            cur.append(ev)
+            cur_o.append(ow)
+        ichunks.append(cur)
+        iowners.append(cur_o)
+        for ch, ow, res in zip(ichunks, iowners, common.validate_traces_parallel("Trace_ReaderImpl", "Trace_ReaderImpl.cfg", ichunks, timeout=1800)):
+            rest, rest_o, guard = ch, ow, 0
+            while not res["accepted"] and guard < 6:
+                guard += 1
+                fu = res["first_unmatched"]
+                if fu is None or fu < 1 or fu > len(rest):
+                    raise common.ToolError("Trace_ReaderImpl failed without a usable reject index:\n" + res["out"][-2500:])
+                wc, rd, o = rest_o[fu - 1]
+                rep.violation(f"reading an intact {wc['codec']} file with {rd}: the reader's calls / hook states are not what the reader machine does: "
+                              f"{[(r['r'], r.get('st'), r.get('left'), r.get('latch')) for r in o['results']][:8]}",
+                              {"fam": "roundtrip", "wcmd": wc, "reader": rd, "codec": wc["codec"], "reader_kind": rd["kind"]},
+                              expected="ContainerReader.tla (Trace_ReaderImpl)", observed=o["results"])
+                j = fu
+                while j < len(rest) and rest[j]["ev"] != "file":
+                    j += 1
+                rest, rest_o = rest[j:], rest_o[j:]
+                if not rest:
+                    break
+                res = common.validate_trace("Trace_ReaderImpl", "Trace_ReaderImpl.cfg", rest, timeout=1800)
     nch = min(common.NCPU, max(1, len(events) // 100))
     chunks = [events[k::nch] for k in range(nch)]
     idx = [list(range(len(events)))[k::nch] for k in range(nch)]
